@@ -22,6 +22,7 @@ if TIER not in ("quick", "thorough"):
     TIER = "quick"
 QUICK = TIER == "quick"
 SEED = int(os.environ.get("VERIF_SEED", "0") or 0)
+REPO = os.environ.get("VERIF_REPO", "/repo")  # checkout under analysis
 
 
 def pick(quick: Any, thorough: Any) -> Any:
